@@ -66,6 +66,7 @@ pub fn det_families() -> Vec<&'static str> {
 }
 
 pub mod live_park;
+pub mod live_condvar;
 pub mod live_cqueue;
 pub mod live_local;
 pub mod live_join;
@@ -73,6 +74,8 @@ pub mod live_rwlock;
 pub mod live_life;
 pub mod live_cancel;
 pub mod live_io;
+pub mod live_scope;
+pub mod live_panic;
 
 /// a live-mode scenario (real runtime, real time)
 pub struct LiveBuilt {
@@ -87,6 +90,7 @@ pub struct LiveBuilt {
 pub fn build_live(family: &str, rng: &mut Rng, tier: u32) -> Option<LiveBuilt> {
     match family {
         "park" => Some(live_park::build(rng, tier)),
+        "condvar_live" => Some(live_condvar::build(rng, tier)),
         "cqueue" => Some(live_cqueue::build(rng, tier)),
         "local" => Some(live_local::build(rng, tier)),
         "blocker" => Some(live_park::build_blocker(rng, tier)),
@@ -105,6 +109,9 @@ pub fn build_live(family: &str, rng: &mut Rng, tier: u32) -> Option<LiveBuilt> {
         "io_cancel_shared" => Some(live_io::build_cancel_shared(rng, tier)),
         "io_unix_iter" => Some(live_io::build_unix_iter(rng, tier)),
         "io_unix_churn" => Some(live_io::build_unix_churn(rng, tier)),
+        "scope" => Some(live_scope::build(rng, tier)),
+        "panic" => Some(live_panic::build(rng, tier, false)),
+        "panicscope" => Some(live_panic::build(rng, tier, true)),
         _ => None,
     }
 }
@@ -120,4 +127,41 @@ pub fn spawn_actor_thread<F: FnOnce() + Send + 'static>(name: &str, f: F) -> std
             may::verif::pop_actor();
         })
         .unwrap()
+}
+
+/// set once a scenario of this process has made a coroutine park while it unwinds (known finding F10: std's
+/// per-thread panic counter is then wrong on the workers involved for the rest of the process)
+pub static UNWIND_PARK_TAINT: std::sync::atomic::AtomicBool = std::sync::atomic::AtomicBool::new(false);
+
+/// classify the oracle failures of a scenario: in a tainted process everything that is not F5/F10 itself is a
+/// possible consequence of F10 and is reported under that prefix
+pub fn classify_f10(fails: &mut Vec<String>) {
+    if fails.iter().any(|f| f.starts_with("F10:")) {
+        UNWIND_PARK_TAINT.store(true, std::sync::atomic::Ordering::SeqCst);
+    }
+    if UNWIND_PARK_TAINT.load(std::sync::atomic::Ordering::SeqCst) {
+        for f in fails.iter_mut() {
+            if !f.starts_with("F10:") && !f.starts_with("F5:") && !f.starts_with("hang") {
+                *f = format!("F10: (possible consequence: a coroutine of this process parked while unwinding) {f}");
+            }
+        }
+    }
+}
+
+/// wait until no hooked event has been logged for `ms` milliseconds (kernel tails / triggers of coroutines whose
+/// bodies are over still log events; the perturbation can delay each by up to 2 ms)
+pub fn quiesce(ms: u64) {
+    use std::sync::atomic::Ordering;
+    let mut last = crate::rt::LIVE_EVENTS.load(Ordering::Relaxed);
+    let mut t = std::time::Instant::now();
+    loop {
+        std::thread::sleep(std::time::Duration::from_micros(500));
+        let n = crate::rt::LIVE_EVENTS.load(Ordering::Relaxed);
+        if n != last {
+            last = n;
+            t = std::time::Instant::now();
+        } else if t.elapsed().as_millis() as u64 >= ms {
+            return;
+        }
+    }
 }
